@@ -74,6 +74,57 @@ func ruleAnyGate(c *Ctx) []Obligation {
 		v, _ := info.Uses[id].(*types.Var)
 		return v
 	}
+	// innerKindOf: E.Kind() where E is a component reached from a parameter (got.(T).Inner, a local holding the
+	// asserted value, …): returns the parameter the component belongs to
+	var rootParam func(e ast.Expr, depth int) *types.Var
+	rootParam = func(e ast.Expr, depth int) *types.Var {
+		if depth > 6 {
+			return nil
+		}
+		switch x := ast.Unparen(e).(type) {
+		case *ast.Ident:
+			v, _ := info.Uses[x].(*types.Var)
+			if v == got || v == exp {
+				return v
+			}
+			if v == nil {
+				return nil
+			}
+			var defs []ast.Expr
+			ast.Inspect(tc.Body, func(n ast.Node) bool {
+				if as, ok := n.(*ast.AssignStmt); ok && len(as.Lhs) >= 1 && len(as.Rhs) == 1 {
+					if lid, ok := as.Lhs[0].(*ast.Ident); ok && (info.Defs[lid] == v || info.Uses[lid] == v) {
+						defs = append(defs, as.Rhs[0])
+					}
+				}
+				return true
+			})
+			if len(defs) == 1 {
+				return rootParam(defs[0], depth+1)
+			}
+		case *ast.SelectorExpr:
+			return rootParam(x.X, depth+1)
+		case *ast.TypeAssertExpr:
+			return rootParam(x.X, depth+1)
+		case *ast.StarExpr:
+			return rootParam(x.X, depth+1)
+		}
+		return nil
+	}
+	innerKindOf := func(e ast.Expr) *types.Var {
+		call, ok := ast.Unparen(e).(*ast.CallExpr)
+		if !ok || len(call.Args) != 0 {
+			return nil
+		}
+		sel, ok := call.Fun.(*ast.SelectorExpr)
+		if !ok || sel.Sel.Name != "Kind" {
+			return nil
+		}
+		if _, direct := ast.Unparen(sel.X).(*ast.Ident); direct && kindOf(e) != nil {
+			return nil // the parameter itself: handled by kindOf
+		}
+		return rootParam(sel.X, 0)
+	}
 	constName := func(e ast.Expr) string {
 		if k := ResolveConst(ap, tc, e, 0); k != nil {
 			return k.Name()
@@ -133,7 +184,9 @@ func ruleAnyGate(c *Ctx) []Obligation {
 				if vals != nil {
 					some, all := has(vals, isAny)
 					if !some {
-						return s, false // the source is not `any` on this path: nothing to decide
+						// the source itself is not `any` here; a COMPONENT of it may still be tested for `any` below
+						s.gotNotAny = false
+						return s, true
 					}
 					if all {
 						s.gotAny = true
@@ -175,6 +228,17 @@ func ruleAnyGate(c *Ctx) []Obligation {
 				v, k := kindOf(be.X), constName(be.Y)
 				if v == nil {
 					v, k = kindOf(be.Y), constName(be.X)
+				}
+				if v == nil {
+					// a component of the source type is `any` (got.(OptionType).Inner.Kind() == AnyTypeKind)
+					iv, ik := innerKindOf(be.X), constName(be.Y)
+					if iv == nil {
+						iv, ik = innerKindOf(be.Y), constName(be.X)
+					}
+					if iv == got && ik == "AnyTypeKind" && (be.Op == token.EQL) == (taken != neg) {
+						s.gotAny = true
+						s.trace = append(s.trace, "a component of the source type is any")
+					}
 				}
 				if v != nil && k != "" {
 					eq := (be.Op == token.EQL) == (taken != neg)
